@@ -23,12 +23,21 @@ func init() {
 		ID:    "C08",
 		Level: "exploration",
 		Rule: "programs over 2-5 packages with random orders of in-package / export (before and after definition) / use-package / set / defun / defmacro / redefinition after import / qualified and unqualified references / functions that set or read globals when called from another package / load-string nesting (depth <= 3) with in-package inside / attempts to bind :k, true, false through set, set!, let, lambda formals, labels, dotimes; " +
-			"every reference is observed through an effect probe; values, conditions, the probe trace, Runtime.Package.Name after the load and the per-package symbol tables are compared with the reference model. distinct_nontrivial counts distinct (statement-kind bigram, outcome) and (reference kind, resolution outcome) signatures",
+			"every reference is observed through an effect probe; values, conditions, the probe trace, Runtime.Package.Name after the load and the per-package symbol tables are compared with the reference model. distinct_nontrivial counts distinct (statement-kind bigram, outcome) and (reference kind, resolution outcome) signatures. " +
+			"Appended family (c08_refused.go): histories of several top-level loads on one runtime whose statements include REFUSED in-package / use-package / export calls (7 classes of refusal x 4 ways of carrying on: handler-bind, ignore-errors, a load-string that fails, a top-level load that fails), followed by the valid form on the same name; what a refused call leaves behind is not judged, what the property states is (after any history); counted as (class, guard, neighbouring statement kind) and (class, reference kind, outcome) signatures",
 		Assumptions: []string{
 			"the package model is harness/refint (packages are tables; use-package copies the exported bindings present at that moment; a function body runs with its defining package current; load restores the package)",
+			"what a refused in-package leaves behind is not specified: the current package after it and the existence of the package it named are not judged (refint.Interp.RefusedPackageOpsUnjudged)",
 		},
-		Cases:       func(tier string) int { return pick(tier, 16000, 500000) },
-		Run:         c08Run,
+		Cases: func(tier string) int { return c08MainCases(tier) + c08RefusedCases(tier) },
+		Run: func(w *fw.W, idx int) {
+			if base := c08MainCases(w.Tier); idx >= base {
+				c08RefusedRun(w, idx-base) // c08_refused.go; appended, the main family keeps its indices
+				return
+			}
+			c08Run(w, idx)
+		},
+		Driver:      c08Driver,
 		MinDistinct: func(tier string) int { return pick(tier, 600, 1200) },
 	})
 }
@@ -40,6 +49,7 @@ type c08Gen struct {
 	cur    string
 	kinds  []string
 	depth  int
+	ref    *c08Ref // histories with refused package operations (c08_refused.go); nil in the main family
 }
 
 // the last two are names the language package exports: a package may bind them itself
@@ -66,6 +76,9 @@ func (g *c08Gen) stmt() *sx.N {
 		add("in-package")
 		p := g.pkgRef()
 		g.cur = p
+		if g.ref != nil {
+			g.ref.entered[p] = true
+		}
 		if g.r.Bool() {
 			return sx.Call("in-package", sx.QY(p))
 		}
@@ -161,6 +174,9 @@ func (g *c08Gen) stmt() *sx.N {
 		default:
 			// a chain through another package, built in one statement
 			p2 := g.pkgRef()
+			if g.ref != nil {
+				g.ref.entered[p2] = true
+			}
 			third := fw.Pick(g.r, c08Names)
 			inner := mk(third)
 			if g.r.Chance(1, 3) {
@@ -322,6 +338,10 @@ func c08Run(w *fw.W, idx int) {
 		if rp == nil {
 			continue
 		}
+		if miss := c08LangMissing(reg.Package("lisp"), rp); len(miss) > 0 {
+			w.Violation("package-lacks-language-exports", fmt.Sprintf("package %s exists and lacks %d of the language package's exports (first: %s)", pn, len(miss), miss[0]), detail())
+			return
+		}
 		var rs, ms []string
 		for _, s := range rp.SymbolNames() {
 			if !langSyms[s] || c08IsPool(s) {
@@ -397,6 +417,12 @@ func c08TagKind(k string) string {
 		return "load-string"
 	case "k":
 		return "constant-binding"
+	case "refused":
+		return "value-of-guarded-refused-call"
+	case "use":
+		return "use-package"
+	case "obs":
+		return "final-observation"
 	}
 	return "trace"
 }
